@@ -353,7 +353,7 @@ def run(ctx):
     ctx.guard('types', rule_types)
     ctx.guard('report', rule_report)
     ctx.guard('mean', rule_mean)
-    ctx.floor('width', 9)
+    ctx.floor('width', 6)   # vacuity guard (9 on the pinned tree; an edit may legitimately merge or drop an accumulator)
     ctx.floor('levels', 14)
     ctx.floor('fee', 6)
     ctx.floor('max', 8)
